@@ -48,6 +48,7 @@ def cells(tier):
         for w in range(1, 5):
             out.append({'kind': 'raw', 'w': w, 'c': 1})
         out.append({'kind': 'esc', 'm': 6})
+        out.append({'kind': 'escpre', 'c': 0})
         out.append({'kind': 'multi', 'lines': 2, 'c': 1})
         out.append({'kind': 'succraw', 't': 2, 'c': 1})
         out.append({'kind': 'copy'})
@@ -74,6 +75,7 @@ def cells(tier):
                     out.append(cell)
         big.extend(api.shards({'kind': 'raw', 'w': 6, 'c': 1}, 16, 10))
         out.append({'kind': 'esc', 'm': 7})
+        out.append({'kind': 'escpre', 'c': 1})
         out.append({'kind': 'multi', 'lines': 3, 'c': 2})
         out.append({'kind': 'succraw', 't': 3, 'c': 1})
         out.append({'kind': 'copy'})
@@ -135,6 +137,8 @@ def run(cell):
         return run_raw(cell)
     if k == 'esc':
         return run_esc(cell)
+    if k == 'escpre':
+        return run_escpre(cell)
     return run_multi(cell)
 
 
@@ -189,6 +193,45 @@ def run_rt(cell):
         if esc is not None:
             api.prove(esc[0:1] == rcode[0:1], 'esc-class-mismatch', index=i,
                       **info)
+
+
+def run_escpre(cell):
+    """texts that begin with up to two ESC-looking tokens (symbolic digits,
+    1..2 digits per field), any code, with a code change before sending"""
+    from slimta.smtp.io import IO
+    from slimta.smtp.reply import Reply
+    code = sym_code('code')
+
+    def token(name):
+        k = api.choice(name + '_shape', 3)
+        if k == 0:
+            return ''
+        t = api.sstr(name + 'c', 1, 0x30, 0x39) + '.' + \
+            api.sstr(name + 's', k, 0x30, 0x39) + '.' + \
+            api.sstr(name + 'd', 1, 0x30, 0x39)
+        return t + ' '
+    msg = token('t1') + token('t2') + api.sstr('tail', 1, 0x21, 0x7E)
+    r = Reply(code, msg)
+    if api.choice('recode', 2):
+        r.code = sym_code('code2')
+    text = r.message
+    wire = _wire_of([r])
+    tail = b'250 next\r\n'
+    segs, pos = cut_stream(wire + tail, cell['c'])
+    sock = FakeSocket(segs, eof=False)
+    io = IO(sock, address=('h', 1))
+    st, rcode, rmsg = _recv(io)
+    api.observe('reply', [st, rcode, rmsg])
+    info = dict(kind='escpre', cuts=pos)
+    if not api.prove(st == 'ok', 'recv-failed', status=st, **info):
+        return
+    api.prove(rcode == r.code, 'code-mismatch', **info)
+    api.prove(rmsg == norm_crlf(text), 'message-mismatch', **info)
+    api.prove(io.recv_buffer + sock.unread() == tail, 'consumption-mismatch',
+              **info)
+    esc = Reply(rcode, rmsg).enhanced_status_code
+    if esc is not None:
+        api.prove(esc[0:1] == rcode[0:1], 'esc-class-mismatch', **info)
 
 
 def run_multi(cell):
